@@ -342,6 +342,37 @@ distinct = distinct (accessor, d, t-class); oracle = harness integer calendar: e
         for d in 1..=65_535u16 {
             check_stream(ctx, d, 0);
         }
+        // a radial's own date-time is a function of the radial header alone: the message header
+        // around it may carry an earlier, equal or later date
+        let mut rng2 = Rng::derive(ctx.seed, 8, 0x58);
+        for k in 0..ctx.tier.pick(3_000u32, 60_000u32) {
+            let d = rng2.range(1, 65_535) as u16;
+            let t = *rng2.pick(&[0u32, 1, 43_200_000, 86_399_999]);
+            let mut spec = enc::gen_msg31(&mut rng2, 0b0000001111, false, false);
+            spec.hdr.date = d;
+            spec.hdr.time = t;
+            let mut mh = MsgHeader::realistic(&mut rng2, 31);
+            mh.date = match k % 3 { 0 => d.saturating_sub(1).max(1), 1 => d, _ => d.saturating_add(1) };
+            let bytes = enc::msg31_bytes(&mh, &spec.encode(&mut rng2));
+            ctx.obs.case(mix(mix(0x58, d as u64), (t as u64) << 2 | (k % 3) as u64));
+            let want = cal::icd_epoch_ms(d, t as u64);
+            let got = mon::catch(|| {
+                nexrad_decode::messages::decode_messages(&mut Cursor::new(&bytes[..])).map(|v| {
+                    v.first().and_then(|m| match m.contents() {
+                        nexrad_decode::messages::MessageContents::DigitalRadarData(r) => r.header.date_time().map(|x| x.timestamp_millis()),
+                        _ => None,
+                    })
+                })
+            });
+            match got {
+                Ok(Ok(Some(g))) if g == want => ctx.obs.count("stream_delivered_radial_headers_exact", 1),
+                other => ctx.obs.violation(
+                    "digital_radar_data::Header::date_time wrong-instant for a radial inside a stream",
+                    format!("radial d={d} t={t} in a message dated day {}: expected {}, observed {:?}", mh.date, want, other.map(|r| r.map_err(|e| format!("{e:?}"))).map_err(|p| p.signature())),
+                    json!({"date": d, "time": t, "message_date": mh.date}),
+                ),
+            }
+        }
         for &d in &sample_days {
             for &t in &ts {
                 check_stream(ctx, d, t);
@@ -372,6 +403,31 @@ distinct = distinct (accessor, d, t-class); oracle = harness integer calendar: e
             let mut prev = None;
             check_in_range(ctx, b, d, t, 5_000 + i, &mut prev);
             ctx.obs.count("history_interleavings_checked", 1);
+        }
+    }
+
+    // A long stay on one day, then midnight: 66,000 reads of each accessor on day d (what a
+    // decoder running all day does), then day d + 1 - each as exact as the first.
+    {
+        for acc in [Acc::RadialHeader, Acc::MessageHeader, Acc::RadialModel] {
+            let d = rng.range(2, 65_000) as u16;
+            let mut prev = None;
+            for k in 0..66_000u32 {
+                // (every read is checked; only every hundredth is counted as a case of its own)
+                let t = (k as u64 * 1_309 % 86_400_000) as u32;
+                if k % 100 == 0 {
+                    check_in_range(ctx, acc, d, t, 9_000 + k as u64, &mut None);
+                } else if let Ok(Ok(Some((got, _)))) = mon::catch(|| eval(acc, d as u32, t)) {
+                    if got != cal::icd_epoch_ms(d, t as u64) {
+                        ctx.obs.violation(format!("{} wrong-instant", acc.name()), format!("d={d} t={t} (read {} of a long stay on one day): expected {}, observed {}", k + 1, cal::icd_epoch_ms(d, t as u64), got), json!({"date": d, "time": t, "read": k + 1}));
+                        break;
+                    }
+                }
+            }
+            for t in [0u32, 5, 86_399_999] {
+                check_in_range(ctx, acc, d + 1, t, 9_900, &mut prev);
+            }
+            ctx.obs.count("long_stays_on_one_day_followed_by_the_next", 1);
         }
     }
 
